@@ -289,6 +289,26 @@ def run_witness_task(task):
         harness.built = True
         kind = task["kind"]
         t_end = time.time() + task["budget"]
+        if kind == "effects":
+            for lname in task["lemmas"]:
+                for (U, k) in [(2, 0), (2, 1), (2, 2), (3, 2), (3, 3), (3, 4)]:
+                    left = t_end - time.time()
+                    if left < 5:
+                        break
+                    try:
+                        script, info = with_time_limit(min(left, task["timeout"]), W.search_effects, su, U, k, lname, timeout_s=int(min(left, task["timeout"])))
+                    except (V.Unsupported, MemoryError, Timeout) as ex:
+                        out["tried"].append("%s U=%d k=%d: %s: %s" % (lname, U, k, type(ex).__name__, ex))
+                        continue
+                    if script is None:
+                        out["tried"].append(info)
+                        continue
+                    ok, obs = W.replay_effects(su, sch, harness, task["program"], script)
+                    if ok:
+                        out["found"] = (script, obs, info)
+                        return out
+                    out["tried"].append("%s U=%d k=%d: history %s did not show a difference to the reference model natively (%s)" % (lname, U, k, script, obs[:1]))
+            return out
         for (U, k, K) in task["plans"]:
             left = t_end - time.time()
             if left < 5:
